@@ -1,4 +1,5 @@
 //go:build verif && verif_c13
+
 // Verification hooks for property C13 (password protection / compound file
 // writer). Compiled only with `-tags verif`; adds code and changes none.
 
@@ -44,4 +45,27 @@ func VerifC13EncryptionMechanism(b []byte) (string, error) { return encryptionMe
 func VerifC13PackageEncrypt(key, input []byte) []byte {
 	e := encryption{BlockSize: 16, KeyBits: 128, SaltSize: 16, EncryptedKeyValue: key}
 	return e.encrypt(input)
+}
+
+// VerifC13StandardKey exposes standardConvertPasswdToKey: the key derived from
+// the password for ECMA-376 standard encryption with the given salt and key
+// size in bits.
+func VerifC13StandardKey(salt []byte, password string, keyBits uint32) ([]byte, error) {
+	return standardConvertPasswdToKey(
+		StandardEncryptionHeader{KeySize: keyBits},
+		StandardEncryptionVerifier{Salt: salt},
+		&Options{Password: password})
+}
+
+// VerifC13AgileKey exposes convertPasswdToKey: the key derived from the
+// password for ECMA-376 agile encryption with the given hash algorithm, salt
+// (base64), spin count, key size in bits and block key.
+func VerifC13AgileKey(password string, blockKey []byte, hashAlgorithm, saltBase64 string, spinCount, keyBits int) ([]byte, error) {
+	return convertPasswdToKey(password, blockKey, Encryption{
+		KeyData: KeyData{HashAlgorithm: hashAlgorithm},
+		KeyEncryptors: KeyEncryptors{KeyEncryptor: []KeyEncryptor{{EncryptedKey: EncryptedKey{
+			SpinCount: spinCount,
+			KeyData:   KeyData{KeyBits: keyBits, SaltValue: saltBase64},
+		}}}},
+	})
 }
